@@ -657,3 +657,26 @@ def graph_doc(rng, shape, n, same_bare_names=False, cyclic=False, kinds=('>', '<
                                b, [doc.tables[b].columns[0].name]))
     doc.default_order()
     return doc, edges
+
+
+def same_bare_names(doc, rng):
+    """labelled class: two (or three) tables share their bare name in different schemas"""
+    if len(doc.tables) < 2:
+        return False
+    k = min(len(doc.tables), rng.choice([2, 2, 3]))
+    base = doc.tables[0]
+    used = {base.schema}
+    for t in doc.tables[1:k]:
+        if t.schema in used:
+            t.schema = f'sb{len(used)}_' + (t.schema if t.schema != 'public' else 'x')
+        used.add(t.schema)
+        t.name = base.name
+    # the join table of a <> reference is named <left>_<right> in the left schema: keep those names unique
+    seen = set()
+    for r in doc.refs:
+        if r.kind == '<>':
+            key = (doc.tables[r.t1].schema, doc.tables[r.t1].name, doc.tables[r.t2].name)
+            if key in seen:
+                r.kind = '>'
+            seen.add(key)
+    return True
